@@ -174,6 +174,13 @@ func (m *monitor) run() {
 		sawLock[c][li.LockVersion] = append(sawLock[c][li.LockVersion], lockSeen{seq, li.LockTtl, li.LockVersion})
 	}
 	scanLocked := map[int]map[uint64]uint64{} // client -> txn -> seq of the ScanLock answer naming it
+	// primSeen: what a CheckTxnStatus answer told a client about the primary lock of an async-commit transaction
+	type primSeen struct {
+		seq    uint64
+		ttl    uint64
+		forced bool
+	}
+	primTTL := map[int]map[uint64][]primSeen{}
 	asyncMin := map[int]map[uint64]uint64{}   // client -> txn -> max min_commit_ts learned for an async-commit txn
 
 	recs := append([]*simkit.RPCRecord(nil), m.trace...)
@@ -204,6 +211,10 @@ func (m *monitor) run() {
 				if resp.LockInfo != nil {
 					noteLock(r.Client, resp.LockInfo, r.DoneSeq)
 					if resp.LockInfo.UseAsyncCommit {
+						if primTTL[r.Client] == nil {
+							primTTL[r.Client] = map[uint64][]primSeen{}
+						}
+						primTTL[r.Client][req.LockTs] = append(primTTL[r.Client][req.LockTs], primSeen{seq: r.DoneSeq, ttl: resp.LockTtl, forced: req.CurrentTs == math.MaxUint64})
 						if asyncMin[r.Client] == nil {
 							asyncMin[r.Client] = map[uint64]uint64{}
 						}
@@ -317,6 +328,23 @@ func (m *monitor) run() {
 				}
 			} else {
 				check(req.StartVersion, req.CommitVersion)
+			}
+		case *kvrpcpb.CheckSecondaryLocksRequest:
+			// R5 for async commit: asking the stores about the secondaries rolls back every secondary that has no lock
+			// yet - it decides the transaction. A resolver may do it only once the PRIMARY's ttl, as the store reported
+			// it to this resolver, has run out on the resolver's clock (GC's forced expiry excepted).
+			var last *primSeen
+			for i := range primTTL[r.Client][req.StartVersion] {
+				if ps := &primTTL[r.Client][req.StartVersion][i]; ps.seq < r.SubmitSeq && (last == nil || ps.seq > last.seq) {
+					last = ps
+				}
+			}
+			if last != nil && !last.forced {
+				m.hit("R5-check-secondaries-after-expiry")
+				now := time0Millis + r.SubmitAt.Milliseconds()
+				if now < physical(req.StartVersion)+int64(last.ttl) {
+					m.fail("R5-check-secondaries-after-expiry", fmt.Sprintf("c%d.txn%d", r.Client, req.StartVersion), "client %d sent CheckSecondaryLocks for the async-commit txn %d at clock %d ms although the ttl %d ms the store had reported for its primary lock runs until %d ms: the transaction is alive, its outstanding prewrites get rolled back", r.Client, req.StartVersion, now, last.ttl, physical(req.StartVersion)+int64(last.ttl))
+				}
 			}
 		case *kvrpcpb.CheckTxnStatusRequest:
 			// R5: expiry is judged on the resolver's own clock
